@@ -899,3 +899,408 @@ def run_C09(ck):
             if not is_prefix(out, c['good_out']): return 'bytes were fabricated for an out-of-window reference'
             return None
         judge(ck, c, ['res'] if c['meta']['api'] == 'raw' else ['verdict', 'out'], oracle, 'both')
+
+# ------------------------------------------------------------------ C10: memory limit
+@prop('C10', 'LZMA streams (well-formed, incl. outputs larger than the dictionary; also corrupted) x limits m in {0, 1, need-1, need, need+1, dict-1, dict, none} where need = min(dictionary, produced), one-shot and streaming under random chunkings; with need <= m the result must equal the unlimited run, otherwise an error with a prefix of the output; peak heap of the window measured by the counting allocator; non-trivial = limit within 2 of need or dict')
+def run_C10(ck):
+    rng = Rng(ck.seed).fork('C10')
+    quick = ck.tier == 'quick'
+    streams = gen_lzma_streams(rng, 60 if quick else 400, big_every=4, end_styles=('marker', 'sized'), max_syms=50)
+    cases = []
+    for s in streams:
+        dict_eff = max(s['dict'], 4096)
+        T = s['n']
+        need = min(dict_eff, T)
+        data = s['bytes'] if rng.chance(5, 6) else corrupt(rng, s['bytes'], 13)
+        valid = data == s['bytes']
+        base = {'line': 'lzma_dec opt=rfh mem=none in=%s' % hx(data), 'meta': {'need': need, 'dict': dict_eff, 'T': T, 'valid': valid}}
+        cases.append(base)
+        ms = sorted(set(x for x in [0, 1, need - 1, need, need + 1, dict_eff - 1, dict_eff, dict_eff + 1, T, 1 << 40] if x >= 0))
+        for m in (ms if not quick else [rng.choice(ms) for _ in range(4)] + [need, need - 1 if need else 0]):
+            meta = {'need': need, 'dict': dict_eff, 'T': T, 'm': m, 'valid': valid}
+            if rng.chance(2, 3):
+                cases.append({'line': 'lzma_dec opt=rfh mem=%d in=%s' % (m, hx(data)), 'meta': meta, 'base': base, 'true_out': s['out']})
+            else:
+                lens = chunkings(rng, len(data), rng.choice(['whole', 'random', 'single']))
+                cases.append({'line': 'stream opt=rfh mem=%d calls=%s' % (m, stream_calls(data, lens)), 'meta': meta, 'base': base, 'true_out': s['out'], 'stream': True})
+            ck.count('m_vs_need_' + ('lt' if m < need else 'eq' if m == need else 'gt'))
+    run_both(ck, cases)
+    for c in cases:
+        if 'base' not in c:
+            judge(ck, c, ['verdict', 'out', 'pos'], None, 'both'); continue
+        m = c['meta']
+        ck.note_case(c['line'], abs(m['m'] - m['need']) <= 2 or abs(m['m'] - m['dict']) <= 2)
+        def oracle(c):
+            r, b, m = c['r'], c['base']['r'], c['meta']
+            if c.get('stream'):
+                calls = r.get('res', '').split(';')
+                v = 'panic' if any('panic' in x for x in calls) else ('ok' if calls[-1] == 'x:ok' and not any(x.startswith('W:err') for x in calls) else 'err')
+            else:
+                v = r.get('verdict')
+            out = unhx(r.get('out', '-'))
+            if v == 'panic': return 'panic under a memory limit'
+            if m['valid']:
+                if m['need'] <= m['m']:
+                    if v != b.get('verdict') or (v == 'ok' and r.get('out') != b.get('out')):
+                        return 'limit %d >= needed window %d but the result differs from the unlimited run' % (m['m'], m['need'])
+                else:
+                    if v != 'err': return 'limit %d < needed window %d but decoding did not fail' % (m['m'], m['need'])
+                    if not is_prefix(out, c['true_out']): return 'output under a memory limit is not a prefix of the unlimited output'
+                # the window buffer itself must stay within the limit (slack: Vec growth doubling + probability tables etc.)
+                peak = int(r.get('peak', 0))
+                fixed = 2 * 768 * 2 * (1 << 12) + 200000 + 4 * len(c['line'])
+                if peak > 2 * min(m['m'], m['dict']) + fixed + 2 * m['T']:
+                    return 'peak heap %d is out of proportion to the memory limit %d' % (peak, m['m'])
+            return None
+        judge(ck, c, ['res', 'out'] if c.get('stream') else ['verdict', 'out', 'pos'], oracle, 'both')
+
+# ------------------------------------------------------------------ C11: consumed position
+@prop('C11', 'well-formed payloads x trailing bytes of length 0-40 x reader kinds (slice, Cursor, BufReader capacities 1-64, fragmenting BufRead): size-bounded LZMA and LZMA2 must leave the reader right after the payload; LZMA with end marker and XZ must reject any trailing byte; non-trivial = trailing bytes present')
+def run_C11(ck):
+    rng = Rng(ck.seed).fork('C11')
+    quick = ck.tier == 'quick'
+    cases = []
+    RD = lambda: rng.choice(['all', '1', '2,9', 'std:slice', 'std:cursor', 'std:buf:%d' % rng.range(1, 64), 'std:buf:1'])
+    for s in gen_lzma_streams(rng, 120 if quick else 1000, big_every=0, max_syms=40):
+        trail = rng.bytes(rng.choice([0, 1, 2, 5, 19, 20, 21, 40]))
+        b = s['bytes']
+        if s['n'] == 0 and rng.chance(1, 2): pass
+        if s['style'] == 'sized':
+            cases.append({'line': 'lzma_dec opt=rfh in=%s rd=%s' % (hx(b + trail), RD()), 'meta': {'kind': 'lzma_sized', 'trail': len(trail), 'n': s['n']}, 'expect_pos': len(b), 'expect_out': s['out']})
+            cases.append({'line': 'lzma_dec opt=up:%d in=%s rd=%s' % (s['n'], hx(b[:5] + b[13:] + trail), RD()), 'meta': {'kind': 'lzma_sized_up', 'trail': len(trail), 'n': s['n']}, 'expect_pos': len(b) - 8, 'expect_out': s['out']})
+        elif s['style'] == 'marker':
+            cases.append({'line': 'lzma_dec opt=rfh in=%s rd=%s' % (hx(b + trail), RD()), 'meta': {'kind': 'lzma_marker', 'trail': len(trail)}, 'must_err': len(trail) > 0, 'expect_out': s['out']})
+        ck.count('lzma_' + s['style'])
+    pool = gen_lzma2_streams(rng, 80 if quick else 500)
+    for s in pool:
+        trail = rng.bytes(rng.choice([0, 1, 3, 8, 40]))
+        cases.append({'line': 'lzma2_dec in=%s rd=%s' % (hx(s['bytes'] + trail), RD()), 'meta': {'kind': 'lzma2', 'trail': len(trail)}, 'expect_pos': len(s['bytes']), 'expect_out': s['out']})
+        ck.count('lzma2')
+    for f in gen_xz_files(rng, 60 if quick else 400, [p for p in pool if len(p['bytes']) < 3000]):
+        trail = rng.bytes(rng.choice([0, 1, 2, 4, 12])) if rng.chance(3, 4) else bytes(rng.choice([1, 4, 8]))
+        cases.append({'line': 'xz_dec in=%s rd=%s' % (hx(f['bytes'] + trail), RD()), 'meta': {'kind': 'xz', 'trail': len(trail)}, 'must_err': len(trail) > 0, 'expect_out': f['out']})
+        ck.count('xz')
+    # the degenerate payload: a size-bounded member of size 0 still owns its five coder bytes
+    for lc, lp, pb in [(3, 0, 2), (0, 0, 0)]:
+        for trail in [b'', b'\x01\x02\x03\x04\x05\x06\x07']:
+            hdr = bytes([lc + 9 * (lp + 5 * pb)]) + struct.pack('<I', 4096) + struct.pack('<Q', 0)
+            cases.append({'line': 'lzma_dec opt=rfh in=%s rd=%s' % (hx(hdr + bytes(5) + trail), RD()), 'meta': {'kind': 'lzma_sized_empty', 'trail': len(trail)}, 'expect_pos': 18, 'expect_out': b''})
+            cases.append({'line': 'raw_lzma lc=%d lp=%d pb=%d dict=4096 size=0 ops=d:%s' % (lc, lp, pb, hx(bytes(5) + trail)), 'meta': {'kind': 'raw_sized_empty', 'trail': len(trail)}, 'raw_pos': 5})
+    run_both(ck, cases)
+    for c in cases:
+        ck.note_case(c['line'], c['meta']['trail'] > 0)
+        def oracle(c):
+            r = c['r']
+            if 'raw_pos' in c:
+                parts = r.get('res', '').split(';')
+                if len(parts) < 2 or not parts[1].startswith('d:ok:'): return 'empty size-bounded payload rejected'
+                if int(parts[1].split(':')[3]) != c['raw_pos']: return 'raw decoder left the reader at %s instead of %d' % (parts[1].split(':')[3], c['raw_pos'])
+                return None
+            v = r.get('verdict')
+            if c.get('must_err'):
+                return None if v == 'err' else 'trailing bytes after a self-terminating stream were not rejected (%s)' % v
+            if v != 'ok': return 'payload followed by %d foreign bytes was rejected' % c['meta']['trail']
+            if unhx(r.get('out', '-')) != c['expect_out']: return 'output differs'
+            if 'expect_pos' in c and int(r.get('pos', -1)) != c['expect_pos']:
+                return 'reader left at %s instead of %d (payload end)' % (r.get('pos'), c['expect_pos'])
+            return None
+        judge(ck, c, ['res'] if 'raw_pos' in c else ['verdict', 'out', 'pos'], oracle, 'both')
+
+# ------------------------------------------------------------------ C12: I/O faults
+@prop('C12', 'valid inputs for the six one-shot entry points and the streaming decoder x {read fault at every refill k, write fault at every write call k, failing flush, sinks accepting 1 / few bytes per write}; fault positions are enumerated exhaustively per input from the call counts of the fault-free run; non-trivial = the fault position lies inside the run',
+      ['faults are injected at the BufRead refill / Write::write call granularity of the harness reader and sink'])
+def run_C12(ck):
+    rng = Rng(ck.seed).fork('C12')
+    quick = ck.tier == 'quick'
+    bases = []
+    lz = gen_lzma_streams(rng, 6 if quick else 30, big_every=3, max_syms=30)
+    l2 = gen_lzma2_streams(rng, 5 if quick else 25)
+    xzs = gen_xz_files(rng, 5 if quick else 25, [p for p in l2 if len(p['bytes']) < 3000] or l2)
+    for s in lz: bases.append(('lzma_dec opt=rfh in=%s' % hx(s['bytes']), 'lzma_dec', s['out']))
+    for s in l2: bases.append(('lzma2_dec in=%s' % hx(s['bytes']), 'lzma2_dec', s['out']))
+    for f in xzs: bases.append(('xz_dec in=%s' % hx(f['bytes']), 'xz_dec', f['out']))
+    for n in ([0, 1, 40, 300] if quick else [0, 1, 40, 300, 5000, 70000]):
+        data = rng.bytes(n)
+        bases.append(('lzma_enc opt=wh:none in=%s' % hx(data), 'lzma_enc', None))
+        bases.append(('lzma2_enc in=%s' % hx(data), 'lzma2_enc', None))
+        bases.append(('xz_enc in=%s' % hx(data), 'xz_enc', None))
+    # fault-free runs under a fragmenting reader and a short-writing sink, to learn the call counts
+    probes = []
+    for line, op, exp in bases:
+        for rd, wr in [('all', 'all'), ('7,3', '5,2'), ('1', '1')] if len(line) < 3000 else [('all', 'all'), ('500', '300')]:
+            probes.append({'line': '%s rd=%s wr=%s' % (line, rd, wr), 'meta': {'op': op, 'rd': rd, 'wr': wr}, 'op': op, 'exp': exp, 'base': line, 'rd': rd, 'wr': wr})
+    run_both(ck, probes)
+    cases = []
+    for p in probes:
+        ck.note_case(p['line'], False)
+        def oracle0(c):
+            r = c['r']
+            if r.get('verdict') != 'ok': return 'fault-free run failed'
+            if c['exp'] is not None and unhx(r['out']) != c['exp']: return 'fault-free output wrong (short-writing sink must still receive everything)'
+            if c['op'] in ('lzma_dec', 'lzma2_dec') and int(r.get('fl', 0)) < 1: return 'decoder did not flush the sink on success'
+            return None
+        if not judge(ck, p, ['verdict', 'out', 'pos'], oracle0, 'both'): continue
+        good = unhx(p['r']['out'])
+        rc, wc = int(p['r'].get('rc', 0)), int(p['r'].get('wc', 0))
+        ks_r = range(rc + 1) if rc <= 60 else sorted(set([0, 1, 2, rc - 1, rc] + [rng.below(rc) for _ in range(40)]))
+        ks_w = range(wc + 1) if wc <= 60 else sorted(set([0, 1, 2, wc - 1, wc] + [rng.below(wc) for _ in range(40)]))
+        for k in ks_r:
+            cases.append({'line': '%s rd=%s wr=%s rfail=%d' % (p['base'], p['rd'], p['wr'], k), 'meta': {'op': p['op'], 'fault': 'read', 'k': k, 'of': rc}, 'inside': k < rc, 'good': good, 'op': p['op']})
+        for k in ks_w:
+            cases.append({'line': '%s rd=%s wr=%s wfail=%d' % (p['base'], p['rd'], p['wr'], k), 'meta': {'op': p['op'], 'fault': 'write', 'k': k, 'of': wc}, 'inside': k < wc, 'good': good, 'op': p['op']})
+        if p['op'] in ('lzma_dec', 'lzma2_dec'):
+            cases.append({'line': '%s rd=%s wr=%s ffail=1' % (p['base'], p['rd'], p['wr']), 'meta': {'op': p['op'], 'fault': 'flush'}, 'inside': True, 'good': good, 'op': p['op']})
+        ck.count('op_' + p['op'])
+    # the streaming decoder with a failing / short-writing sink
+    for s in lz:
+        b = s['bytes']
+        for wr, wf in [('all', 'none'), ('1', 'none'), ('3', '0'), ('1', str(rng.below(max(1, s['n']))))]:
+            lens = chunkings(rng, len(b), 'random')
+            cases.append({'line': 'stream opt=rfh calls=%s wr=%s wfail=%s' % (stream_calls(b, lens), wr, wf), 'meta': {'op': 'stream', 'fault': 'write' if wf != 'none' else 'none', 'k': wf}, 'stream': True, 'good': s['out'], 'inside': None, 'op': 'stream'})
+    run_both(ck, cases)
+    for c in cases:
+        ck.note_case(c['line'], bool(c['inside']))
+        def oracle(c):
+            r = c['r']
+            if c.get('stream'):
+                calls = r.get('res', '').split(';')
+                if any('panic' in x for x in calls): return 'streaming decoder panicked under a sink fault'
+                out = unhx(r.get('out', '-'))
+                if not is_prefix(out, c['good']): return 'sink content is not a prefix of the correct output'
+                if calls[-1] == 'x:ok' and not any(x.startswith('W:err') for x in calls) and out != c['good']: return 'success but the sink does not hold the complete output'
+                return None
+            v, out = r.get('verdict'), unhx(r.get('out', '-'))
+            if v == 'panic' or v == 'hang': return 'I/O fault caused a %s' % v
+            if not is_prefix(out, c['good']): return 'bytes accepted by the sink before the failure are not a prefix of the correct output'
+            if c['inside'] and v == 'ok': return 'an I/O call failed (%s #%s) but the operation reported success' % (c['meta']['fault'], c['meta'].get('k'))
+            if v == 'ok' and out != c['good']: return 'success without the complete output in the sink'
+            return None
+        judge(ck, c, ['res', 'out'] if c.get('stream') else ['verdict', 'out'], oracle, 'both')
+
+# ------------------------------------------------------------------ C13: reader fragmentation
+@prop('C13', 'inputs (well-formed, truncated, corrupted, mutated containers incl. non-zero padding with recomputed CRCs) for the three one-shot decoders x reader policies (whole, 1 byte, BufReader capacities 1..n, cyclic short-read patterns): verdict, output and consumed count must be identical across policies and equal to the model; non-trivial = policy other than whole')
+def run_C13(ck):
+    rng = Rng(ck.seed).fork('C13')
+    quick = ck.tier == 'quick'
+    inputs = []
+    for s in gen_lzma_streams(rng, 25 if quick else 200, big_every=9, max_syms=40):
+        for kind, data, opt in lzma_variants(rng, s)[:6]:
+            inputs.append(('lzma_dec opt=%s in=%s' % (opt, hx(data + (rng.bytes(5) if kind == 'valid' and s['style'] == 'sized' else b''))), kind))
+    pool = gen_lzma2_streams(rng, 25 if quick else 150)
+    for s in pool:
+        b = s['bytes']
+        inputs.append(('lzma2_dec in=%s' % hx(b + rng.bytes(rng.below(4))), 'valid'))
+        inputs.append(('lzma2_dec in=%s' % hx(b[:rng.range(0, len(b))]), 'truncated'))
+        inputs.append(('lzma2_dec in=%s' % hx(corrupt(rng, b)), 'corrupt'))
+    small = [p for p in pool if len(p['bytes']) < 2000] or pool
+    for f in gen_xz_files(rng, 25 if quick else 150, small):
+        inputs.append(('xz_dec in=%s' % hx(f['bytes']), 'valid'))
+        for desc, m in xz_mutants(rng, f, 6):
+            inputs.append(('xz_dec in=%s' % hx(m), 'mutant'))
+        inputs.append(('xz_dec in=%s' % hx(f['bytes'][:rng.range(0, len(f['bytes']))]), 'truncated'))
+        inputs.append(('xz_dec in=%s' % hx(corrupt(rng, f['bytes'])), 'corrupt'))
+        # non-zero bytes at various places of the header padding, CRC recomputed
+        if f['blocks'] and f['blocks'][0].header_pad:
+            for _ in range(3):
+                j = rng.below(1 << 16)
+                inputs.append(('xz_dec in=%s' % hx(xz_file(f['blocks'], f['check'], mb_width=f['mbw'],
+                               block_tweaks={0: {'header_padding': lambda p, j=j: p[:j % len(p)] + b'\x01' + p[j % len(p) + 1:]}})), 'hdrpad'))
+    cases = []
+    for line, kind in inputs:
+        grp = []
+        pols = ['all', '1', 'std:slice', 'std:buf:1', 'std:buf:%d' % rng.range(2, 6), 'std:buf:%d' % rng.range(7, 64), '%d,%d,%d' % (rng.range(1, 9), rng.range(1, 4), rng.range(1, 30)), '%d' % rng.range(2, 6)]
+        for rd in (pols if not quick else pols[:3] + [rng.choice(pols[3:]), rng.choice(pols[3:])]):
+            c = {'line': '%s rd=%s' % (line, rd), 'meta': {'kind': kind, 'rd': rd}, 'grp': grp}
+            grp.append(c); cases.append(c)
+        ck.count('kind_' + kind)
+    run_both(ck, cases)
+    for c in cases:
+        ck.note_case(c['line'], c['meta']['rd'] != 'all')
+        ref = c['grp'][0]['r']
+        r = c['r']
+        bad = None
+        for f in ('verdict', 'out', 'pos'):
+            if r.get(f) != ref.get(f):
+                bad = f; break
+        if bad == 'pos' and r.get('verdict') == 'err' and c['line'].startswith('xz_dec'):
+            # genuine but harmless deviation, listed in known_findings.txt: after an Err inside the XZ block
+            # header the BufReader in read_block has read ahead by an amount that depends on the refill sizes
+            ck.violation('oracle', 'reader position after an XZ block-header error depends on fragmentation',
+                         replay_dict(c, {'key': 'xz-block-header-error-position'}))
+            bad = None
+        elif bad:
+            ck.violation('oracle', '%s differs between reader policy %s and %s' % (bad, c['meta']['rd'], c['grp'][0]['meta']['rd']), replay_dict(c))
+        # the model does not represent the reader position after an error (DESIGN section 4)
+        judge(ck, c, ['verdict', 'out', 'pos'] if r.get('verdict') == 'ok' else ['verdict', 'out'], None, 'both')
+
+# ------------------------------------------------------------------ C14: reset
+@prop('C14', 'histories over the raw LzmaDecoder and Lzma2Decoder: (decompress well-formed | corrupt | truncated | reset(None) | reset(Some(None)) | reset(Some(Some n)))* followed by reset and one more decompress, compared with a freshly constructed decoder given the same parameters and the re-specified size; LZMA2 histories mix streams with differing lc/lp/pb and streams whose first compressed chunk carries no property byte; non-trivial = history contains at least one decompress before the final reset')
+def run_C14(ck):
+    rng = Rng(ck.seed).fork('C14')
+    quick = ck.tier == 'quick'
+    cases = []
+    # ---- LZMA
+    for g in range(25 if quick else 200):
+        lc, lp, pb = rand_props(rng)
+        d = rng.choice([1, 3, 8, 4096, 65536])
+        reqs, kinds = [], []
+        for k in range(rng.range(2, 5)):
+            pbld = random_program(rng, rng.range(1, 40), d, lit_bias=2)
+            sized = rng.chance(1, 2)
+            reqs.append('ref_payload lc=%d lp=%d pb=%d window=%d prog=%s' % (lc, lp, pb, d, pbld.text(not sized)))
+            kinds.append((sized, pbld.n))
+        encs = ref_encode(reqs)
+        if any(e is None for e in encs): raise InfraError('ref encoder rejected C14 program')
+        init_size = rng.choice(['none', str(kinds[0][1])])
+        cur = init_size
+        ops, hist = [], []
+        for (b, out), (sized, n) in list(zip(encs, kinds))[:-1]:
+            r = rng.below(4)
+            data = b if r == 0 else corrupt(rng, b) if r == 1 else b[:rng.range(0, len(b))] if r == 2 else b
+            # make the expected size match the stream now and then, so that successful decodes occur
+            if rng.chance(1, 2):
+                want = str(n) if sized else 'none'
+                ops.append('rn' if want == 'none' else 'rs:%s' % want); cur = want
+            ops.append('d:%s' % hx(data)); hist.append(['ok', 'corrupt', 'trunc', 'ok'][r])
+            if rng.chance(1, 3): ops.append('r')
+        (b, out), (sized, n) = encs[-1], kinds[-1]
+        want = str(n) if sized else 'none'
+        final_reset = rng.choice(['r', 'rn' if want == 'none' else 'rs:%s' % want])
+        fin_size = cur if final_reset == 'r' else want
+        probe = b if rng.chance(3, 4) else corrupt(rng, b)
+        reused = {'line': 'raw_lzma lc=%d lp=%d pb=%d dict=%d size=%s ops=%s' % (lc, lp, pb, d, init_size, ';'.join(ops + [final_reset, 'd:%s' % hx(probe)])), 'meta': {'api': 'lzma', 'history': hist, 'final_reset': final_reset}}
+        fresh = {'line': 'raw_lzma lc=%d lp=%d pb=%d dict=%d size=%s ops=d:%s' % (lc, lp, pb, d, fin_size, hx(probe)), 'meta': {'api': 'lzma', 'fresh': True}}
+        reused['fresh'] = fresh
+        cases += [reused, fresh]; ck.count('lzma_histories')
+    # ---- LZMA2
+    pool = gen_lzma2_streams(rng, 30 if quick else 200)
+    # streams whose first compressed chunk carries no property byte (leniency of the decoder: uses the state's properties)
+    noprops = []
+    for k in range(10 if quick else 60):
+        pbld = ProgBuilder(None)
+        pre = rng.bytes(rng.range(1, 9))
+        pbld.n = len(pre)
+        for _ in range(rng.range(1, 20)): pbld.random_sym(rng, 2)
+        noprops.append('ref_lzma2 chunks=U1:%s/Z%d:-:0:%s' % (hx(pre), rng.choice([0, 1]), pbld.text()))
+    noprops = [e for e in ref_encode(noprops) if e is not None]
+    for g in range(30 if quick else 250):
+        ops, hist = [], []
+        for k in range(rng.range(1, 4)):
+            s = rng.choice(pool)
+            r = rng.below(3)
+            b = s['bytes']
+            ops.append('d:%s' % hx(b if r == 0 else corrupt(rng, b) if r == 1 else b[:rng.range(1, len(b))])); hist.append(['ok', 'corrupt', 'trunc'][r])
+            if rng.chance(1, 3): ops.append('r')
+        probe = rng.choice(noprops)[0] if noprops and rng.chance(1, 2) else rng.choice(pool)['bytes']
+        reused = {'line': 'raw_lzma2 ops=%s' % ';'.join(ops + ['r', 'd:%s' % hx(probe)]), 'meta': {'api': 'lzma2', 'history': hist}}
+        fresh = {'line': 'raw_lzma2 ops=d:%s' % hx(probe), 'meta': {'api': 'lzma2', 'fresh': True}}
+        reused['fresh'] = fresh
+        cases += [reused, fresh]; ck.count('lzma2_histories')
+    run_both(ck, cases)
+    for c in cases:
+        ck.note_case(c['line'], 'fresh' in c)
+        def oracle(c):
+            if 'fresh' not in c: return None
+            last = c['r'].get('res', '').split(';')[-1]
+            f = c['fresh']['r'].get('res', '').split(';')[-1]
+            if 'panic' in c['r'].get('res', ''): return 'raw decoder panicked'
+            if last.split(':')[:3] != f.split(':')[:3]:
+                return 'decompress after reset (%s) differs from a freshly constructed decoder (%s)' % (last[:40], f[:40])
+            return None
+        judge(ck, c, ['res'], oracle, 'both')
+
+# ------------------------------------------------------------------ C15: streaming prefixes
+@prop('C15', 'well-formed LZMA streams x every / sampled prefix x chunkings, with allow_incomplete: the sink content observed after every write and the value returned by finish must be prefixes of the complete output, finish must succeed once header + 5 bytes are in, and the output must contain what the model derives from the prefix shortened by 64 bytes; non-trivial = prefix cuts the payload')
+def run_C15(ck):
+    rng = Rng(ck.seed).fork('C15')
+    quick = ck.tier == 'quick'
+    cases = []
+    for s in gen_lzma_streams(rng, 30 if quick else 250, big_every=10, end_styles=('marker', 'sized'), max_syms=60):
+        b = s['bytes']
+        cuts = range(len(b) + 1) if len(b) < 60 and not quick else sorted(set([0, 5, 12, 13, 17, 18, 19, len(b)] + [rng.range(0, len(b)) for _ in range(8)]))
+        for cut in cuts:
+            if cut > len(b): continue
+            P = b[:cut]
+            lens = chunkings(rng, len(P), rng.choice(['whole', 'bytes', 'random', 'single', 'early'])) if len(P) < 600 else chunkings(rng, len(P), rng.choice(['whole', 'single', 'random']))
+            calls = ';'.join('W:%s;g' % hx(p) for p in pieces(P, lens)) + ';x'
+            c = {'line': 'stream opt=rfh allow=1 calls=%s' % calls, 'meta': {'cut': cut, 'of': len(b), 'pieces': len(lens)}, 'true_out': s['out'], 'cut': cut}
+            # what is determined by the input minus the allowed look-ahead
+            short = b[:max(0, cut - 64)]
+            c['short'] = {'line': 'stream opt=rfh allow=1 calls=W:%s;x' % hx(short), 'meta': {'aux': 'prefix minus 64'}}
+            cases += [c, c['short']]
+            ck.count('prefix_in_header' if cut < 18 else 'prefix_in_payload')
+    run_both(ck, cases)
+    for c in cases:
+        if 'short' not in c:
+            judge(ck, c, ['res', 'out'], None, 'both'); continue
+        ck.note_case(c['line'], 18 <= c['cut'] < c['meta']['of'])
+        def oracle(c):
+            r = c['r']
+            calls = r.get('res', '').split(';')
+            out = unhx(r.get('out', '-'))
+            if any('panic' in x for x in calls): return 'panic'
+            if not is_prefix(out, c['true_out']): return 'streaming output is not a prefix of the complete output'
+            if any(x.startswith('W:err') for x in calls): return 'a write of a prefix of a well-formed stream failed'
+            if c['cut'] >= 18 and calls[-1] != 'x:ok': return 'finish with allow_incomplete failed after header and coder preamble'
+            gs = [int(x[2:]) for x in calls if x.startswith('g:')]
+            if any(a > b_ for a, b_ in zip(gs, gs[1:])): return 'sink shrank'
+            need = len(unhx(c['short']['m'].get('out', '-')))
+            if calls[-1] == 'x:ok' and len(out) < need:
+                return 'output after %d input bytes (%d) lacks bytes determined 64 input bytes earlier (%d)' % (c['cut'], len(out), need)
+            return None
+        judge(ck, c, ['res', 'out'], oracle, 'both')
+
+# ------------------------------------------------------------------ C16: latching
+@prop('C16', 'call sequences write*/flush*/finish over well-formed, corrupt, invalid-header and over-long inputs (declared size followed by trailing data) under random chunkings, with the sink length sampled after every call; after the first failing write every write must return Ok(0) with the sink unchanged and finish must fail; after the declared size is reached writes consume nothing; non-trivial = sequence contains a failing write or reaches the declared size')
+def run_C16(ck):
+    rng = Rng(ck.seed).fork('C16')
+    quick = ck.tier == 'quick'
+    cases = []
+    for s in gen_lzma_streams(rng, 60 if quick else 500, big_every=0, max_syms=40):
+        b = s['bytes']
+        variants = [('corrupt', corrupt(rng, b, 13)), ('bad_header', bytes([rng.range(225, 255)]) + b[1:]), ('valid', b)]
+        if s['style'] == 'sized':
+            variants.append(('overlong', b + rng.bytes(rng.range(1, 400))))
+            variants.append(('overlong', b + rng.bytes(rng.range(21, 90))))
+        for kind, data in variants:
+            for rep in range(2 if kind == 'overlong' else 1):
+                how = rng.choice(['random', 'random', 'bytes', 'single', 'early']) if len(data) < 300 else rng.choice(['random', 'single'])
+                lens = [rng.choice([7, 9, 17, 18, 34, 51, 3, 13])] * (len(data) // 7 + 2) if kind == 'overlong' and rng.chance(1, 2) else chunkings(rng, len(data), how)
+                calls = []
+                for p in pieces(data, lens):
+                    if not p and kind == 'overlong': continue
+                    calls.append('w:%s' % hx(p)); calls.append('g')
+                    if rng.chance(1, 6): calls.append('f')
+                for _ in range(rng.range(1, 3)):
+                    calls.append('w:%s' % hx(rng.bytes(rng.range(1, 30)))); calls.append('g')
+                calls.append('x')
+                cases.append({'line': 'stream opt=rfh calls=%s' % ';'.join(calls), 'meta': {'kind': kind, 'style': s['style'], 'n': s['n']}, 'n': s['n'], 'style': s['style']})
+                ck.count('kind_' + kind)
+    run_both(ck, cases)
+    for c in cases:
+        res = c['r'].get('res', '').split(';')
+        ck.note_case(c['line'], 'w:err' in res or (c['style'] == 'sized' and any(x == 'g:%d' % c['n'] for x in res)))
+        def oracle(c):
+            calls = c['r'].get('res', '').split(';')
+            if any('panic' in x for x in calls): return 'a call sequence panicked'
+            failed, glen = False, None
+            last_g = 0
+            done = False
+            for x in calls:
+                if x.startswith('g:'):
+                    g = int(x[2:])
+                    if failed and glen is not None and g != glen: return 'bytes were delivered to the sink after a failed write'
+                    if failed and glen is None: glen = g
+                    if done and g != c['n']: return 'output changed after the declared size was reached'
+                    if c['style'] == 'sized' and g >= c['n'] and c['n'] > 0: done = True
+                    if c['style'] == 'sized' and g > c['n']: return 'more bytes than the declared size were delivered'
+                    last_g = g
+                elif x.startswith('w:'):
+                    if failed and x != 'w:0': return 'a write after a failed write returned %s instead of Ok(0)' % x
+                    if x == 'w:err': failed = True
+                elif x.startswith('f:'):
+                    if failed and x != 'f:ok': return 'flush after a failed write returned %s' % x
+                elif x.startswith('x:'):
+                    if failed and x != 'x:err': return 'finish after a failed write did not return an error'
+            return None
+        judge(ck, c, ['res', 'out'], oracle, 'both')
